@@ -183,7 +183,7 @@ func findBracket(p *Program, fn *ssa.Function, acq, rel *ssa.Function) (*bracket
 
 func lockRules() []*Rule {
 	return []*Rule{
-		{ID: "LOCK-1", Props: []string{"C06", "C07", "C17"}, Min: 6,
+		{ID: "LOCK-1", Props: []string{"C06", "C07", "C08", "C17"}, Min: 6,
 			Doc: "every exported method of *sqlittle.DB that reaches a page read brackets it: RLock error returned, defer RUnlock on the same handle dominates every page-reaching call, no early unlock, no nested lock",
 			Run: runLock1},
 		{ID: "LOCK-2", Props: []string{"C06", "C19"}, Min: 8,
